@@ -372,16 +372,105 @@ def run_fileformat(fmt, ctx_values, src_text, inplace, encoding, enc=None, route
         cfg.update(enc)
     ctx = Context(dict(ctx_values))
     ctx[key] = cfg
+    src_bytes = src_text.encode(e_in)
     try:
         mod.run_step(ctx)
     except Exception as e:
-        return err(e), None
+        o = err(e)
+        o['after'] = files_after_failure(src, src_bytes, out if route == 'out' else None)
+        return o, None
     with open(out, 'rb') as f:
         raw = f.read()
     try:
         return {'ok': True}, raw.decode(e_out)
     except UnicodeError as e:
         return {'ok': True, 'undecodable': f'{type(e).__name__} reading the output as {e_out}; first bytes {raw[:8]!r}'}, None
+
+
+def files_after_failure(src, src_bytes, out):
+    """What a fileformat step that RAISED left on disk: is the source byte for byte what it was; the state of the
+    `out` file (absent | empty | partial:<n bytes>; None when the step edits in place); every other file in the
+    working directory (temp files)."""
+    try:
+        with open(src, 'rb') as f:
+            src_same = f.read() == src_bytes
+    except OSError:
+        src_same = False
+    out_state = None
+    if out is not None:
+        if not os.path.exists(out):
+            out_state = 'absent'
+        else:
+            n = os.path.getsize(out)
+            out_state = 'empty' if n == 0 else f'partial:{n}'
+    extra = []
+    for base, _dirs, files in os.walk('.'):
+        for name in files:
+            p = os.path.normpath(os.path.join(base, name))
+            if p not in (os.path.normpath(src), os.path.normpath(out) if out else None):
+                extra.append(p)
+    return {'source_intact': src_same, 'out': out_state, 'extra': sorted(extra)}
+
+
+def spec_format(ctx_values, node):
+    """The property text read node by node on a loaded document: "the same document with every string node, keys
+    included, replaced by its formatted value and all other nodes unchanged" - the only primitive is pypyr's
+    formatter applied to ONE string; mappings keep their entry order (an entry whose formatted key is there already
+    takes that entry's place: dict assignment), sequences their positions. Raises what the formatter raises."""
+    from pypyr.context import Context
+    F = Context(dict(ctx_values)).get_formatted_value
+
+    def rec(n):
+        if isinstance(n, str):
+            return plain(F(n))
+        if isinstance(n, dict):
+            out = {}
+            for k, v in n.items():
+                out[rec(k) if isinstance(k, str) else k] = rec(v)
+            return out
+        if isinstance(n, list):
+            return [rec(x) for x in n]
+        return n
+    try:
+        return {'ok': rec(node)}
+    except Exception as e:
+        return err(e)
+
+
+def representable(fmt, value):
+    """the plain writer of the format accepts the document (None: it raises)"""
+    try:
+        if fmt == 'json':
+            json.dumps(value)
+        else:
+            render(fmt, value)
+        return True
+    except Exception:
+        return False
+
+
+def toml_order(w, aot_is_table):
+    """TOML writers emit, per table, the plain entries first and the sub-tables after them (an array of tables counts
+    as one or the other depending on its inline length): the entry order a TOML file preserves is the order WITHIN
+    each of the two groups."""
+    if isinstance(w, list):
+        return [toml_order(x, aot_is_table) for x in w]
+    if isinstance(w, dict) and 'd' in w:
+        def is_table(v):
+            if isinstance(v, dict) and 'd' in v:
+                return True
+            return aot_is_table and isinstance(v, list) and len(v) > 0 and all(isinstance(x, dict) and 'd' in x for x in v)
+        items = [[k, toml_order(v, aot_is_table)] for k, v in w['d']]
+        return {'d': [kv for kv in items if not is_table(kv[1])] + [kv for kv in items if is_table(kv[1])]}
+    return w
+
+
+def same_order(fmt, want_w, got_w):
+    """the two (equal up to entry order) wire documents have their mapping entries in the same order, as far as the
+    format preserves it (json, yaml: entirely; toml: within plain entries / within tables)"""
+    if fmt != 'toml':
+        return want_w == got_w
+    return any(toml_order(want_w, a) == toml_order(got_w, a) for a in (False, True))
 
 
 def third_party_roundtrip(fmt, value):
